@@ -1187,6 +1187,11 @@ impl StoryState {
         };
 
         std::mem::swap(&mut self.current_flow, &mut next_flow);
+
+        // Each flow has its own evaluation stack: park the one of the flow we leave
+        next_flow.evaluation_stack = std::mem::take(&mut self.evaluation_stack);
+        self.evaluation_stack = std::mem::take(&mut self.current_flow.evaluation_stack);
+
         named_flows.insert(next_flow.name.clone(), next_flow);
 
         self.variables_state
